@@ -9,6 +9,9 @@ MODULES = [
     'contracts.c05_replay',
     'contracts.c26_pool',
     'contracts.c26_replay',
+    'contracts.externals',
+    'contracts.c08_flows',
+    'contracts.c08_replay',
 ]
 
 EXTRA_CHECKS = {'C26': ['contracts.c26_census:check'],
